@@ -142,33 +142,73 @@ theorem not_found_end_to_end (c : ServeCfg) (st : StatFn) (rq : Parsed) (m : Str
   by_cases hx : (g == lit "!") = true <;> simp [respondParsed, hh, hi, hb, Wire.ofProto, hg, hx]
 
 /-- **Every Gemini and Spartan answer starts with one status line** (and the line is a single
-    line whatever the selector contained: `statusLine_single_line`). -/
+    line whatever the selector contained: `statusLine_single_line`): not-found, documents, menus,
+    Gemini's refusal of a URL it cannot parse (`59`), its input prompt (`10`) and redirect (`30`). -/
 theorem status_line_first (c : ServeCfg) (st : StatFn) (rq : Parsed) (ps : List Piece) (p : Proto)
     (hp : p = .gemini ∨ p = .spartan) (h : respondParsed c st p rq = some ps) :
     ∃ code mt tail rest, ps = .text (statusLine code mt ++ tail) :: rest ∧
-      (code = lit "51" ∨ code = lit "20" ∨ code = lit "4" ∨ code = lit "2") := by
+      (code = lit "51" ∨ code = lit "20" ∨ code = lit "4" ∨ code = lit "2" ∨ code = lit "59" ∨ code = lit "10" ∨ code = lit "30") := by
   unfold respondParsed at h
-  split at h
-  · cases h
-  · rcases hp with hp | hp <;> subst hp <;> simp only [Wire.ofProto] at h
-    · cases hh : handled c st rq.selector with
-      | notFound m => simp only [hh, Option.some.injEq] at h; exact ⟨lit "51", m, [], [], by rw [← h]; simp, Or.inl rfl⟩
-      | crash => simp [hh] at h
-      | document e d => simp only [hh, Option.some.injEq] at h; exact ⟨lit "20", geminiAdjust e.mimetype, [], [.bytes d], by rw [← h]; simp, Or.inr (Or.inl rfl)⟩
-      | page e t => simp only [hh, Option.some.injEq] at h; exact ⟨lit "20", geminiAdjust e.mimetype, t, [], by rw [← h], Or.inr (Or.inl rfl)⟩
-      | menu self es =>
-        simp only [hh] at h
-        obtain ⟨r, _, hr⟩ := Option.map_eq_some_iff.mp h
-        exact ⟨lit "20", lit "text/gemini", r ++ footerText c.geminiFooter, [], by rw [← hr]; simp [List.append_assoc], Or.inr (Or.inl rfl)⟩
-    · cases hh : handled c st rq.selector with
-      | notFound m => simp only [hh, Option.some.injEq] at h; exact ⟨lit "4", m, [], [], by rw [← h]; simp, Or.inr (Or.inr (Or.inl rfl))⟩
-      | crash => simp [hh] at h
-      | document e d => simp only [hh, Option.some.injEq] at h; exact ⟨lit "2", geminiAdjust e.mimetype, [], [.bytes d], by rw [← h]; simp, Or.inr (Or.inr (Or.inr rfl))⟩
-      | page e t => simp only [hh, Option.some.injEq] at h; exact ⟨lit "2", geminiAdjust e.mimetype, t, [], by rw [← h], Or.inr (Or.inr (Or.inr rfl))⟩
-      | menu self es =>
-        simp only [hh] at h
-        obtain ⟨r, _, hr⟩ := Option.map_eq_some_iff.mp h
-        exact ⟨lit "2", lit "text/gemini", r ++ footerText c.spartanFooter, [], by rw [← hr]; simp [List.append_assoc], Or.inr (Or.inr (Or.inr rfl))⟩
+  by_cases hb : rq.badRequest = true
+  · simp only [hb, if_true] at h
+    rcases hp with hp | hp <;> subst hp
+    · simp [Wire.ofProto] at h
+      exact ⟨lit "59", lit "Bad request", [], [], by rw [← h]; simp, by simp⟩
+    · simp [Wire.ofProto] at h
+  have hb' : rq.badRequest = false := by simpa using hb
+  simp only [hb', Bool.false_eq_true, if_false] at h
+  by_cases hi : rq.geminiInput.isSome = true
+  · simp only [hi, if_true] at h
+    rcases hp with hp | hp <;> subst hp
+    · simp only [Wire.ofProto] at h
+      cases hgi : rq.geminiInput with
+      | none => rw [hgi] at hi; simp at hi
+      | some rest =>
+        rw [hgi] at h
+        cases hs : rq.search with
+        | none =>
+          rw [hs] at h; simp at h
+          exact ⟨lit "10", lit "Enter input", [], [], by rw [← h]; simp, by simp⟩
+        | some q =>
+          rw [hs] at h
+          by_cases hq : q.isEmpty = true
+          · simp [hq] at h
+            exact ⟨lit "10", lit "Enter input", [], [], by rw [← h]; simp, by simp⟩
+          · simp [hq] at h
+            exact ⟨lit "30", rest ++ [63] ++ q, [], [], by rw [← h]; simp, by simp⟩
+    · simp only [Wire.ofProto] at h
+      cases rq.geminiInput <;> cases rq.search <;> simp at h
+  have hi' : rq.geminiInput.isSome = false := by simpa using hi
+  simp only [hi', Bool.false_eq_true, if_false] at h
+  rcases hp with hp | hp <;> subst hp <;> simp only [Wire.ofProto] at h
+  · cases hh : handled c st rq.selector with
+    | notFound m => simp only [hh, Option.some.injEq] at h; exact ⟨lit "51", m, [], [], by rw [← h]; simp, Or.inl rfl⟩
+    | crash => simp [hh] at h
+    | document e d => simp only [hh, Option.some.injEq] at h; exact ⟨lit "20", geminiAdjust e.mimetype, [], [.bytes d], by rw [← h]; simp, Or.inr (Or.inl rfl)⟩
+    | page e t => simp only [hh, Option.some.injEq] at h; exact ⟨lit "20", geminiAdjust e.mimetype, t, [], by rw [← h], Or.inr (Or.inl rfl)⟩
+    | menu self es =>
+      simp only [hh] at h
+      obtain ⟨r, _, hr⟩ := Option.map_eq_some_iff.mp h
+      exact ⟨lit "20", lit "text/gemini", r ++ footerText c.geminiFooter, [], by rw [← hr]; simp [List.append_assoc], Or.inr (Or.inl rfl)⟩
+  · cases hh : handled c st rq.selector with
+    | notFound m => simp only [hh, Option.some.injEq] at h; exact ⟨lit "4", m, [], [], by rw [← h]; simp, Or.inr (Or.inr (Or.inl rfl))⟩
+    | crash => simp [hh] at h
+    | document e d => simp only [hh, Option.some.injEq] at h; exact ⟨lit "2", geminiAdjust e.mimetype, [], [.bytes d], by rw [← h]; simp, Or.inr (Or.inr (Or.inr (Or.inl rfl)))⟩
+    | page e t => simp only [hh, Option.some.injEq] at h; exact ⟨lit "2", geminiAdjust e.mimetype, t, [], by rw [← h], Or.inr (Or.inr (Or.inr (Or.inl rfl)))⟩
+    | menu self es =>
+      simp only [hh] at h
+      obtain ⟨r, _, hr⟩ := Option.map_eq_some_iff.mp h
+      exact ⟨lit "2", lit "text/gemini", r ++ footerText c.spartanFooter, [], by rw [← hr]; simp [List.append_assoc], Or.inr (Or.inr (Or.inr (Or.inl rfl)))⟩
+
+/-- the input prompt of the query prefix: no query yet, Gemini asks for one; with a query it redirects to the
+    selector behind the prefix, query attached as written -/
+theorem gemini_input_prompt (c : ServeCfg) (st : StatFn) (rq : Parsed) (rest q : Str)
+    (hb : rq.badRequest = false) (hi : rq.geminiInput = some rest) (hs : rq.search = some q) :
+    respondParsed c st .gemini rq =
+      some [.text (if q.isEmpty then statusLine (lit "10") (lit "Enter input") else statusLine (lit "30") (rest ++ [63] ++ q))] := by
+  unfold respondParsed
+  simp only [hb, Bool.false_eq_true, if_false, hi, Option.isSome_some, if_true, Wire.ofProto, hs]
+  by_cases hq : q.isEmpty = true <;> simp [hq]
 
 /-- and so is the framing: one response for every outcome -/
 theorem one_response (w : Wire) (admin : Str) (head : Bool) (o : HOutcome) :
